@@ -70,7 +70,9 @@ class Registry:
 
     def axioms_for(self, c):
         from . import theory as T
-        return [T.AX_EVALON_RANGE] + list(getattr(c, "axioms", []) or [])
+        from contracts import sd_inv
+        from contracts import deps
+        return [T.AX_EVALON_RANGE, T.AX_CARD] + sd_inv.AX_FOLD + sd_inv.AX_CACHE + deps.AX_LSET + list(getattr(c, "axioms", []) or [])
 
     # ---- lookups used by the engine
     def lookup_function(self, name):
